@@ -80,6 +80,7 @@ class Files:
         self.root = root
         self.ws = os.path.join(root, "ws")
         os.makedirs(os.path.join(self.ws, "sub"))
+        os.makedirs(os.path.join(root, "targets"))
         self.fs = LocalFileSystem()
         self.state = State(root_dir=root, tmp_dir=os.path.join(root, "state"))
         self.tick = 1_600_000_000_000_000_000  # ns
@@ -88,8 +89,16 @@ class Files:
         self.old_index = None
         self.pads = None
 
+    LINKS = ("r",)   # this workspace path is a symbolic link to a file kept elsewhere: the token is the TARGET's
+
     def path(self, p):
         return os.path.join(self.ws, *PATHNAMES[p].split("/"))
+
+    def real(self, p):
+        """Where the bytes live (the link's target for a linked path)."""
+        if p in self.LINKS:
+            return os.path.join(self.root, "targets", p)
+        return self.path(p)
 
     def token(self, p):
         st = os.stat(self.path(p))
@@ -105,20 +114,24 @@ class Files:
         return t
 
     def create(self, p, c):
-        with open(self.path(p), "wb") as fh:
+        with open(self.real(p), "wb") as fh:
             fh.write(CONTENTS[c])
         mt = self.fresh_mtime()
-        os.utime(self.path(p), ns=(mt, mt))
+        os.utime(self.real(p), ns=(mt, mt))
+        if p in self.LINKS and not os.path.lexists(self.path(p)):
+            os.symlink(self.real(p), self.path(p))
         if self.token(p) in self.hist[p]:
             raise AssertionError("token re-used on create")
         self.note(p)
 
     def delete(self, p):
         os.unlink(self.path(p))
+        if p in self.LINKS:
+            os.unlink(self.real(p))
 
     def mutate(self, p, c, new_ino, new_mt):
         """Returns the (ino, mt) changes that really happened (A13: the token must be new for this path)."""
-        fp = self.path(p)
+        fp = self.real(p)      # (a linked path is changed through its target, the link itself stays as it is)
         before = os.stat(fp)
         if new_ino:
             tmp = fp + ".new"
@@ -381,6 +394,14 @@ def directed_cases():
                    {"op": "Mutate", "p": "p", "c": c2, "ino": ino, "mt": mt}, q,
                    {"op": "Delete", "p": "q"}, {"op": "Create", "p": "q", "c": "c1"}, q]
             cases.append({"id": 100000 + n, "ops": ops, "what": what, "pads": api == "get_hashes" and what == "mtime only"})
+            n += 1
+    # the same through a workspace path that is a symbolic link: the target is what changes
+    for api in APIS:
+        for (c2, ino, mt) in [("c2", False, True), ("c2", True, False), ("c3", True, True)]:
+            q = {"op": "Query", "P": ["r", "q"], "alg": "md5", "api": api}
+            ops = [{"op": "Create", "p": "r", "c": "c1"}, {"op": "Create", "p": "q", "c": "c2"}, q,
+                   {"op": "Mutate", "p": "r", "c": c2, "ino": ino, "mt": mt}, q, q]
+            cases.append({"id": 150000 + n, "ops": ops})
             n += 1
     for kind in ("otheralg", "newer", "legacy"):
         for api in APIS:
